@@ -14,11 +14,11 @@ IMPORTS = "Base Json MD5 Canon FS Ws Cache CorrC08"
 CASE_TYPE = "case_C08"
 MISMATCHES = "mismatches_C08"
 VIOLATIONS = "violations_C08"
-KNOWN = "known_C08"
+KNOWN = None
 SHARD = 40
 RULE = ("histories over {init job, remove job, re-key job (statepoint setter), update_cache, restart session (new Project "
         "object), delete cache file, query through the current session, misname a job directory (corruption)} on a "
-        "universe of 4 state points: directed scenarios (F9 witnesses, poisoning attempts), bounded-exhaustive "
+        "universe of 4 state points: directed scenarios (the former F9 witnesses, poisoning attempts), bounded-exhaustive "
         "histories over a 9-letter alphabet on 2 jobs appended to two start states (empty project / two jobs with a "
         "fresh cache file in a new session) up to length 2 (quick) or 4 (thorough), and seeded random histories of "
         "length <= 40.  After every observed step a fresh Project is observed twice (cache file in place / moved "
@@ -51,7 +51,7 @@ def _alphabet2():
 PREFIXES = [[], [["init", 0], ["init", 1], ["update"], ["restart"]]]
 
 DIRECTED = [
-    # F9 as predicted: remove a job, new session, update_cache()
+    # the F9 witness (fixed by d7351f9): remove a job, new session, update_cache()
     [["init", 0], ["init", 1], ["init", 2], ["update"], ["update"], ["remove", 0], ["restart"], ["update"], ["update"], ["update"]],
     # the same defect on the adding side: job added, new session
     [["init", 0], ["update"], ["init", 1], ["restart"], ["update"], ["update"]],
